@@ -319,6 +319,16 @@ def handleDExp (j : Json) : Except String Json := do
   let s ← (← j.getObjVal? "text").getStr?
   pure (Json.str (String.ofList (Fortran.dExp s.toList)))
 
+def handleParseOpts (j : Json) : Except String Json := do
+  let S := fun (x : List Char) => Json.str (String.ofList x)
+  let lists ← (← (← j.getObjVal? "lists").getArr?).toList.mapM (·.getStr?)
+  let kvs ← (← (← j.getObjVal? "tables").getArr?).toList.mapM (·.getStr?)
+  pure <| Json.mkObj [
+    ("lists", Json.arr (lists.map fun l => Json.arr ((Cfg.parseList l.toList).map S).toArray).toArray),
+    ("tables", Json.arr (kvs.map fun l => match Cfg.parseKV ':' l.toList with
+      | some ps => Json.arr (ps.map fun p => Json.arr #[S p.1, S p.2]).toArray
+      | none => Json.null).toArray)]
+
 def handle (line : String) : String :=
   match Json.parse line with
   | .error e => (Json.mkObj [("error", s!"json: {e}")]).compress
@@ -337,6 +347,7 @@ def handle (line : String) : String :=
       | "renorm" => handleRenorm j
       | "symverdict" => handleSymVerdict j
       | "ftoc" => handleFtoC j
+      | "parseopts" => handleParseOpts j
       | "dexp" => handleDExp j
       | "encode_native" => handleEncodeNative j
       | "kromebound" => handleKrome j
